@@ -108,7 +108,16 @@ POSITIONS.update({
  'type_rename_to':    lambda X: ddl('type_alter', ['name', 'ty'], ['rename_to', X]),
  'enum_column_type':  lambda X: ddl('table_create', ['table', ['t', 't']], ['col', cdef('c', ['Enum', X, ['a']])]),
 })
-PG_ONLY = {'enum_type_name', 'cast_as_enum', 'index_include', 'type_create_name', 'type_drop_name', 'type_alter_name', 'type_rename_to', 'enum_column_type'}
+def arr(X):
+    """the name X followed by [] (Postgres: array of the enum type); the suffix is not part of the identifier"""
+    if isinstance(X, Sym): return Sym(list(X.chars) + [0x5b, 0x5d])
+    if isinstance(X, dict): return {'cps': list(X['cps']) + [0x5b, 0x5d]}
+    return X + '[]'
+POSITIONS.update({
+ 'enum_array_type_name': lambda X: sel(['expr', ['asenum', arr(X), ['val', V('String', 'a')]]]),
+ 'cast_as_enum_array':   lambda X: sel(['expr', ['m', 'as_enum', ['col', 'c'], arr(X)]], ['from', ['t', 't']]),
+})
+PG_ONLY = {'enum_array_type_name', 'cast_as_enum_array', 'enum_type_name', 'cast_as_enum', 'index_include', 'type_create_name', 'type_drop_name', 'type_alter_name', 'type_rename_to', 'enum_column_type'}
 # positions a dialect does not have (the builder panics or documents that it writes nothing there)
 NOT_ON = {'sqlite': {'alter_modify_column', 'alter_add_fk_name', 'alter_drop_fk', 'fk_create_name', 'fk_create_table', 'fk_drop_name', 'delete_order', 'truncate_table', 'create_fk_name', 'index_drop_table'},
           'mysql': {'conflict_target', 'insert_returning'}, 'postgres': {'index_drop_table'}}
@@ -174,7 +183,7 @@ def find_sub(hay, needle):
 def make_syms(item):
     syms, vc = sym_chars(item[2], 'i')
     vc = vc + [c != 0 for c in syms]
-    if item[0] in PG_ONLY and len(syms) >= 2:
+    if item[0] in ('enum_type_name', 'cast_as_enum', 'enum_array_type_name', 'cast_as_enum_array') and len(syms) >= 2:
         vc.append(z3.Not(z3.And(syms[-2] == 0x5b, syms[-1] == 0x5d)))      # a trailing [] designates an array of the type (documented)
     return syms, vc      # NUL cannot occur in an identifier of any of the three engines
 
